@@ -37,6 +37,10 @@ CHECKS = {
             "Every output of every save in the workload is parsed by a reader that shares no code with the library and trusts only the header tables; declared sizes are compared with "
             "what the writer emitted between Block hook events and with what the reader consumes on reload; string-index fields are located through the StringRef hook. "
             "The workload writes files after plain round trips, second generation, API construction and random edit sequences in all versions.", "3/C07"),
+    "C08": ("exploration", "differential runtime monitoring of two builds (vendored reference snapshot vs working tree): cross-loading of each other's normal forms with per-block byte consumption, byte-identical re-encoding and equality of hook-recorded typed field traces",
+            "Both builds synthesise populated instances of all 304 block types x 14 versions through their own readers and write normal forms; each build loads the other's files, must "
+            "consume exactly the declared bytes per block, re-encode them byte-identically, and the per-block sequence of (field kind, width, member offset / reference / string) hook "
+            "events of the re-encoding must be the same in both builds, which exposes field swaps, width and version-gate changes made consistently on both sides.", "3/C08"),
     "C09": ("exploration", "runtime monitor: executable reference model of vertex deletion (survivor restriction, triangle filtering/re-indexing, skin-weight and locked-normal remapping) + range/counter/partition/segment invariants, bounded-exhaustive on small meshes and random beyond",
             "DeleteVertsForShape is applied to every geometry kind (triangle lists, strips, BSTriShape family, skinned/unskinned, segmented) with structured and random index sets and "
             "repeated deletions; accessors and raw skin/partition/segment state are compared with the model after every deletion and geometry is compared across save+reload.", "3/C09"),
